@@ -25,14 +25,21 @@ structure Final (g : Graph) (root : StructId) (P : List QE) (all : List RField) 
   allND : (all.map (·.index)).Nodup
   allSorted : all.Pairwise (fun a b => a.depth ≤ b.depth)
 
+/-- The same for the embedded fallbacks. -/
+structure FinalFb (g : Graph) (P : List QE) (fbs : List RField) : Prop where
+  fbS : ∀ f ∈ fbs, ∃ e ∈ P, ∃ j, Fb g e.sid j ∧ f.index = e.index ++ [j]
+  fbC : ∀ e ∈ P, ∀ j, Fb g e.sid j → ∃ f ∈ fbs, f.index = e.index ++ [j]
+  fbND : (fbs.map (·.index)).Nodup
+  fbSorted : fbs.Pairwise (fun a b => a.depth ≤ b.depth)
+
 theorem final_of_search {g : Graph} {root : StructId} (herr : (search g root).err = none) :
-    ∃ P, Final g root P (search g root).all := by
+    ∃ P, Final g root P (search g root).all ∧ FinalFb g P (search g root).fbs := by
   obtain ⟨k, P, hroot, h3⟩ := Inv3.search (g := g) (root := root) herr
   have hq := search_queue_nil g root
   rw [hq] at h3
   have h := h3.a
   have hh : hist P [] { (search g root) with queue := [] } = P := by simp [hist]
-  refine ⟨P, hroot, ?_, ?_, ?_, ?_, ?_, ?_, ?_, h3.b.allND, h3.b.allSorted⟩
+  refine ⟨P, ⟨hroot, ?_, ?_, ?_, ?_, ?_, ?_, ?_, h3.b.allND, h3.b.allSorted⟩, ⟨?_, ?_, h3.b.fbND, h3.b.fbSorted⟩⟩
   · intro e he hv j t hk
     have := h.kids e j t (Or.inl he) hv hk
     rwa [hh] at this
@@ -49,6 +56,13 @@ theorem final_of_search {g : Graph} {root : StructId} (herr : (search g root).er
     · cases hc
   · intro e he j d hf
     exact h3.b.good e j d (Or.inl he) hf
+  · intro f hf
+    obtain ⟨e, j, hd, hfb, hi⟩ := h3.b.fbS f hf
+    rcases hd with hd | ⟨i, hc, _⟩
+    · exact ⟨e, hd, j, hfb, hi⟩
+    · cases hc
+  · intro e he j hfb
+    exact h3.b.fbC e j (Or.inl he) hfb
 
 theorem pairwise_mem {α} {R : α → α → Prop} : ∀ {l : List α}, l.Pairwise R → ∀ {a b}, a ∈ l → b ∈ l → a = b ∨ R a b ∨ R b a
   | [], _, _, _, ha, _ => by cases ha
@@ -184,5 +198,34 @@ theorem Final.enumerated_sound (h : Final g root P all) (f : RField) (hf : f ∈
   obtain ⟨e, heP, j, hm, hi⟩ := h.allS f hf
   obtain ⟨d, hfd, hk⟩ := member_kind (fun d hd => h.good e heP j d hd) hm
   exact ⟨e.index, e.sid, j, d, h.reach e heP, hfd, hk, hi⟩
+
+theorem good_fb {s1 : StructId} {i : Nat} {d : FieldDecl}
+    (hgood : GoodDecl d) (hf : FieldAt g s1 i d) (hk : kindOf d = .fallback) : Fb g s1 i := by
+  unfold GoodDecl at hgood
+  rw [hk] at hgood
+  cases ha : actOf d <;> simp [ha, Action.Matches] at hgood
+  exact ⟨d, hf, _, ha⟩
+
+/-- Every enumerated fallback is a fallback candidate of the rule. -/
+theorem Final.fb_sound (h : Final g root P all) {fbs : List RField} (hb : FinalFb g P fbs) (f : RField) (hf : f ∈ fbs) :
+    IsFallback g root f.index := by
+  obtain ⟨e, heP, j, ⟨d, hfd, o, ha⟩, hi⟩ := hb.fbS f hf
+  have hgood := h.good e heP j d hfd
+  unfold GoodDecl at hgood
+  rw [ha] at hgood
+  cases hk : kindOf d <;> simp [hk, Action.Matches] at hgood
+  exact ⟨e.index, e.sid, j, d, h.reach e heP, hfd, hk, hi⟩
+
+/-- Every fallback candidate of the rule is enumerated, or there is an enumerated one strictly shallower. -/
+theorem Final.fb_dominated (hnd : NoDupEmbed g root) (h : Final g root P all) {fbs : List RField} (hb : FinalFb g P fbs)
+    (jx : List Nat) (hj : IsFallback g root jx) : ∃ f ∈ fbs, f.index = jx ∨ f.index.length < jx.length := by
+  obtain ⟨p, s1, i, d, hr, hf, hk, hji⟩ := hj
+  obtain ⟨e, heP, hes, hei⟩ := h.occ hnd p.length p s1 rfl hr
+  have hfb : Fb g s1 i := good_fb (h.good e heP i d (hes ▸ hf)) hf hk
+  obtain ⟨f, hfm, hfi⟩ := hb.fbC e heP i (hes ▸ hfb)
+  refine ⟨f, hfm, ?_⟩
+  rcases hei with hei | hei
+  · left; rw [hfi, hji, hei]
+  · right; rw [hfi, hji]; simp; omega
 
 end JsonV.Lemmas.Fields
